@@ -630,13 +630,19 @@ func builtinArrayReduce(call FunctionCall) Value {
 		if length > 0 || initial {
 			var accumulator Value
 			if !initial {
+				present := false
 				for ; index < length; index++ {
 					if key := arrayIndexToString(index); thisObject.hasProperty(key) {
 						accumulator = thisObject.get(key)
 						index++
+						present = true
 
 						break
 					}
+				}
+				if !present {
+					// only holes and no initial value (15.4.4.21 step 8.c)
+					panic(call.runtime.panicTypeError("Array.reduce of empty array with no initial value"))
 				}
 			} else {
 				accumulator = start
@@ -663,12 +669,18 @@ func builtinArrayReduceRight(call FunctionCall) Value {
 			index := length - 1
 			var accumulator Value
 			if !initial {
+				present := false
 				for ; index >= 0; index-- {
 					if key := arrayIndexToString(index); thisObject.hasProperty(key) {
 						accumulator = thisObject.get(key)
 						index--
+						present = true
 						break
 					}
+				}
+				if !present {
+					// only holes and no initial value (15.4.4.22 step 8.c)
+					panic(call.runtime.panicTypeError("Array.reduceRight of empty array with no initial value"))
 				}
 			} else {
 				accumulator = start
